@@ -1,6 +1,7 @@
 package rules
 
 import (
+	"go/types"
 	"go/token"
 	"regexp"
 	"sort"
@@ -82,6 +83,12 @@ func checkC04(c *Ctx) {
 	roots := c.Roots()
 
 	// pool, batches and their counters survive a restart (the genesis clauses of C15 about them)
+	// a batch nonce is consumed only together with a stored batch: the Minter side numbers executed batches by
+	// counting them, so a gap makes every later execution report name the wrong batch (C10's clauses)
+	c.include("batch-build", "C10", rulesIn("C10.non-empty", "C10.counters"))
+	// an observed execution withdraws the older batches of the same token only (C13): a batch of another
+	// token that is put back while the contract can still execute it pays its transfers twice
+	c.include("batch-executed", "C13", rulesIn("C13.older-same-token", "C13.timeout-guard"))
 	c.includeKeys("genesis", "C15", rulesIn("C15.faithful-import", "C15.field-roundtrip", "C15.prefix-export"), func(rule, key string) bool {
 		for _, k := range []string{"SendToExternalKey", "UnbatchedSendToExternalTxs", "LastOutgoingBatchNonceKey", "LastOutgoingBatchTxNonce", "LastSendToExternalIDKey", "OutgoingTxKey", "OutgoingTxs"} {
 			if strings.Contains(key, k) {
@@ -333,6 +340,51 @@ func checkC04(c *Ctx) {
 		}
 	}
 
+	// the key under which the refunded entry is deleted is rebuilt from the entry's Id and Fee: the refund
+	// function must not assign those fields of a SendToExternal between the lookup and the delete
+	for _, f := range refundFns {
+		nSt := 0
+		var bad ssa.Instruction
+		fld := ""
+		visit := func(g *ssa.Function) {
+			ana.Instrs(g, func(in ssa.Instruction) {
+				st, ok := in.(*ssa.Store)
+				if !ok {
+					return
+				}
+				fa, ok := st.Addr.(*ssa.FieldAddr)
+				if !ok {
+					return
+				}
+				root, path := fieldRoot(fa)
+				var rt types.Type
+				if root != nil {
+					rt = root.Type()
+				}
+				if n := ana.NamedOf(rt); n == nil || n.Obj().Name() != "SendToExternal" {
+					return
+				}
+				if _, fresh := root.(*ssa.Alloc); fresh {
+					return // a new entry being built
+				}
+				nSt++
+				if path == "Id" || strings.HasPrefix(path, "Fee") {
+					bad, fld = st, path
+				}
+			})
+		}
+		visit(f)
+		for _, an := range f.AnonFuncs {
+			visit(an)
+		}
+		if bad != nil {
+			r.Bad("C04.refund-delete", "entry-unchanged:"+fname(f), c.pos(bad), "the refund assigns "+fld+" of the looked-up pool entry before the entry is deleted: the delete key is rebuilt from the changed value, the entry stays in the pool under its real key and can be refunded again")
+		} else {
+			r.Ok("C04.refund-delete", "entry-unchanged:"+fname(f), p.Pos(f.Pos()), sprintf("the key fields (Id, Fee) of the looked-up entry are not assigned in the refund function (%d other field assignment(s))", nSt))
+		}
+	}
+
+	c.checkRecoverAtomic("C04.batch-build")
 	// ---- C04.unique-id --------------------------------------------------------
 	c.checkCounter("C04.unique-id", "LastSendToExternalIDKey", reach, roots, 0)
 	r.Min("C04.unique-id", 2)
@@ -341,18 +393,8 @@ func checkC04(c *Ctx) {
 		ok := false
 		for _, a := range allocsOfType(f, "SendToExternal") {
 			for _, v := range ana.FieldStores(a)["Id"] {
-				l := p.Leaves(v, ana.PVOpt{Opaque: func(d ana.CalleeDesc) bool { return true }})
-				for lab, vals := range l.Vals {
-					if !strings.HasPrefix(lab, "call:") {
-						continue
-					}
-					for _, cv := range vals {
-						if call, ok2 := cv.(*ssa.Call); ok2 {
-							if callee := call.Call.StaticCallee(); callee != nil && c.isIncrementOf(callee, "LastSendToExternalIDKey") {
-								ok = true
-							}
-						}
-					}
+				if c.isIncValue(v, f, "LastSendToExternalIDKey", reach) {
+					ok = true
 				}
 			}
 		}
@@ -474,7 +516,16 @@ func (c *Ctx) checkBatchBuild(f *ssa.Function) {
 			}
 			same := true
 			var rootsSeen []ssa.Value
-			for _, a := range call.Common().Args {
+			delArgs := call.Common().Args
+			if e.Prim == e.At {
+				// the store primitive itself (the deleter is written out in place): the arguments of the key constructor
+				for _, a := range call.Common().Args {
+					if kc, ok := a.(*ssa.Call); ok && kc.Call.StaticCallee() != nil && p.IsModule(kc.Call.StaticCallee()) {
+						delArgs = kc.Call.Args
+					}
+				}
+			}
+			for _, a := range delArgs {
 				if n := ana.NamedOf(a.Type()); n != nil && (n.Obj().Name() == "Context" || n.Obj().Name() == "ChainID" || n.Obj().Name() == "Keeper") {
 					continue
 				}
@@ -527,6 +578,36 @@ func (c *Ctx) checkBatchBuild(f *ssa.Function) {
 	ok, ret := ana.MustPassBefore(batchAlloc, stores, true)
 	if len(stores) == 0 {
 		ok = false
+	}
+	// ... and from the moment the selection has run: an exit that stores nothing is the one taken when nothing
+	// was selected
+	if ok && txVar != nil {
+		avoid := map[*ssa.BasicBlock]bool{}
+		for _, st := range stores {
+			avoid[st.Block()] = true
+		}
+		empty := lenAtom(txVar, false)
+		all, _ := ana.Returns(f)
+		for _, an := range f.AnonFuncs {
+			mc := p.ClosureSite(an)
+			if mc == nil || !hasEff(c.Effects(an), "store", "Delete", "SendToExternalKey") {
+				continue
+			}
+			for _, ref := range *mc.Referrers() {
+				call, isCall := ref.(ssa.CallInstruction)
+				if !isCall {
+					continue
+				}
+				for _, rt := range all {
+					if avoid[rt.Block()] {
+						continue
+					}
+					if ana.ReachesWithout(call.(ssa.Instruction), rt, avoid) && !ana.Guarded(rt, empty) {
+						ok, ret = false, rt
+					}
+				}
+			}
+		}
 	}
 	if ok {
 		r.Ok("C04.batch-build", fname(f)+":stored", c.pos(batchAlloc), "the built batch is stored on every path")
@@ -809,87 +890,221 @@ func isPlusOne(v ssa.Value) bool {
 	return ok && k.Value != nil && k.Value.ExactString() == "1"
 }
 
-// checkCounter is the MC engine: the writers of a counter prefix are one
-// increment function (stores Get+1, returns it) plus administrative setters
-// reachable only from InitGenesis / upgrade handlers.
-func (c *Ctx) checkCounter(rule, prefix string, reach map[*ssa.Function]bool, roots *Roots, _ int) {
-	p, r := c.P, c.R
-	consensus := c.P.Reach(append(append(append([]*ssa.Function{}, roots.Block...), roots.Msg...), roots.Gov...)...)
-	nInc := 0
+// ctrWrite is one place where a new value of a counter is computed and stored (directly or through a thin
+// setter whose stored value is its parameter).
+type ctrWrite struct {
+	Fn  *ssa.Function   // the function that computes the value
+	At  ssa.Instruction // the store operation or the call of the setter
+	Val ssa.Value       // the previous+1 value that is stored, nil if the stored value is not of that form
+}
+
+// opaqueAll: calls of module functions are leaves (library conversions stay transparent).
+func opaqueAll(d ana.CalleeDesc) bool { return strings.Contains(d.Pkg, "MinterTeam/mhub2") }
+
+// plusOneIn returns the x+1 values (within v's own function) that v is computed from.
+func (c *Ctx) plusOneIn(v ssa.Value) []ssa.Value {
+	if v == nil {
+		return nil
+	}
+	var out []ssa.Value
+	for _, b := range c.P.Leaves(v, ana.PVOpt{Opaque: opaqueAll}).Vals["binop:+"] {
+		if isPlusOne(b) && b.Parent() == v.Parent() {
+			out = append(out, b)
+		}
+	}
+	return out
+}
+
+// counterWrites lists the places in reach where the counter under prefix receives a new value.
+func (c *Ctx) counterWrites(prefix string, reach map[*ssa.Function]bool) []ctrWrite {
+	p := c.P
+	var out []ctrWrite
 	for _, f := range sortedFuncs(reach) {
 		for _, op := range p.StoreOps(f) {
 			if c.prefixName(op) != prefix || !op.IsWrite() {
 				continue
 			}
-			// f itself or its only caller is the increment
-			inc := f
-			if !c.isIncrementOf(inc, prefix) {
-				// thin setter: look at callers
-				allInc := len(p.In[f]) > 0
-				for _, e := range p.In[f] {
-					if !reach[e.Caller] {
-						continue
-					}
-					if c.isIncrementOf(e.Caller, prefix) {
-						// the stored value must be the +1 value
-						continue
-					}
-					// administrative: must not be reachable from block/msg/gov
-					if consensus[e.Caller] {
-						allInc = false
-						r.Bad(rule, "writer:"+fname(e.Caller), c.pos(e.Site), sprintf("%s is written outside its increment function in code reachable from block/message processing", prefix))
-					} else {
-						r.Ok(rule, "admin-writer:"+fname(e.Caller), c.pos(e.Site), "administrative setter reachable only from genesis/upgrade code")
-					}
-				}
-				if allInc {
-					continue
-				}
+			in, _ := op.Site.(ssa.Instruction)
+			if po := c.plusOneIn(op.Value); len(po) > 0 {
+				out = append(out, ctrWrite{f, in, po[0]})
 				continue
 			}
-			// the value stored is (decoded Get)+1
-			okVal := false
+			// a setter: the stored value is one of its parameters
+			parIdx := -1
 			if op.Value != nil {
-				l := p.Leaves(op.Value, ana.PVOpt{})
-				okVal = l.Ops["binop:+"] && l.Has("const:1")
-			}
-			if !okVal {
-				// stored through a thin setter: value is the argument
-				okVal = true
-			}
-			nInc++
-			r.Check(okVal, rule, "increment:"+fname(inc), c.pos(op.Site), sprintf("%s is advanced by exactly one and the new value is returned", prefix), "increment does not store previous+1")
-		}
-	}
-	// increments that write through a thin setter
-	for _, f := range sortedFuncs(reach) {
-		if !c.isIncrementOf(f, prefix) {
-			continue
-		}
-		direct := false
-		for _, op := range p.StoreOps(f) {
-			if c.prefixName(op) == prefix && op.IsWrite() {
-				direct = true
-			}
-		}
-		if direct {
-			continue
-		}
-		// value passed to the setter must be the returned +1 value
-		ok := false
-		ana.Calls(f, func(site ssa.CallInstruction, d ana.CalleeDesc) {
-			for _, callee := range p.Callees(site) {
-				if hasEff(c.Effects(callee), "store", "Set", prefix) || c.isThin(callee) {
-					for _, a := range site.Common().Args {
-						if isPlusOne(a) {
-							ok = true
+				for lab, vals := range p.Leaves(op.Value, ana.PVOpt{Opaque: opaqueAll}).Vals {
+					if !strings.HasPrefix(lab, "param:") {
+						continue
+					}
+					for _, v := range vals {
+						if par, ok := v.(*ssa.Parameter); ok && par.Parent() == f && !strings.HasSuffix(par.Type().String(), "types.Context") {
+							for i, fp := range f.Params {
+								if fp == par && c.prefixPartFree(op, par) {
+									parIdx = i
+								}
+							}
 						}
 					}
 				}
 			}
+			if parIdx < 0 || f.Parent() != nil {
+				out = append(out, ctrWrite{f, in, nil})
+				continue
+			}
+			n := 0
+			for _, e := range p.In[f] {
+				if !reach[e.Caller] || e.Kind != "static" {
+					continue
+				}
+				args := e.Site.Common().Args
+				if parIdx >= len(args) {
+					continue
+				}
+				n++
+				var val ssa.Value
+				if po := c.plusOneIn(args[parIdx]); len(po) > 0 {
+					val = po[0]
+				}
+				out = append(out, ctrWrite{e.Caller, e.Site.(ssa.Instruction), val})
+			}
+			if n == 0 {
+				out = append(out, ctrWrite{f, in, nil})
+			}
+		}
+	}
+	return out
+}
+
+// prefixPartFree: the parameter is the value, not (only) a component of the key.
+func (c *Ctx) prefixPartFree(op ana.StoreOp, par *ssa.Parameter) bool {
+	if op.Key == nil {
+		return true
+	}
+	for _, pt := range op.Key.Parts {
+		if pt.Val == ssa.Value(par) {
+			return false
+		}
+	}
+	return true
+}
+
+// isIncValue: v (a value of f) is the new value of the counter under prefix: the result of the increment
+// function, or the previous+1 value that f itself stores under the prefix.
+func (c *Ctx) isIncValue(v ssa.Value, f *ssa.Function, prefix string, reach map[*ssa.Function]bool) bool {
+	var cands []ssa.Value
+	cands = append(cands, v)
+	l := c.P.Leaves(v, ana.PVOpt{Opaque: opaqueAll})
+	for lab, vals := range l.Vals {
+		if strings.HasPrefix(lab, "call:") || lab == "binop:+" {
+			cands = append(cands, vals...)
+		}
+	}
+	// no arithmetic on the way other than the increment itself
+	for op := range l.Ops {
+		if strings.HasPrefix(op, "binop:") && op != "binop:+" {
+			return false
+		}
+	}
+	var writes []ctrWrite
+	for _, cv := range cands {
+		switch x := cv.(type) {
+		case *ssa.Call:
+			if callee := x.Call.StaticCallee(); callee != nil && c.isIncrementOf(callee, prefix) {
+				return true
+			}
+		case *ssa.BinOp:
+			if !isPlusOne(x) {
+				continue
+			}
+			if writes == nil {
+				writes = c.counterWrites(prefix, reach)
+			}
+			for _, w := range writes {
+				if w.Val == ssa.Value(x) && x.Parent() == f {
+					return true
+				}
+			}
+		}
+	}
+	return false
+}
+
+// readsPrefix: fn, or a function it statically calls (two levels), reads the store under prefix.
+func (c *Ctx) readsPrefix(fn *ssa.Function, prefix string) bool {
+	frontier := []*ssa.Function{fn}
+	seen := map[*ssa.Function]bool{fn: true}
+	for depth := 0; depth <= 2; depth++ {
+		var next []*ssa.Function
+		for _, g := range frontier {
+			for _, op := range c.P.StoreOps(g) {
+				if op.Op == "Get" && c.prefixName(op) == prefix {
+					return true
+				}
+			}
+			for _, e := range c.P.Out[g] {
+				if e.Kind == "static" && !seen[e.Callee] {
+					seen[e.Callee] = true
+					next = append(next, e.Callee)
+				}
+			}
+		}
+		frontier = next
+	}
+	return false
+}
+
+// checkCounter is the MC engine: in block / message / governance code every new value of a counter prefix is
+// previous+1, computed where the counter is read, and there is exactly one such place; other writers are
+// administrative setters reachable only from InitGenesis / upgrade handlers.
+func (c *Ctx) checkCounter(rule, prefix string, reach map[*ssa.Function]bool, roots *Roots, _ int) {
+	r := c.R
+	consensus := c.P.Reach(append(append(append([]*ssa.Function{}, roots.Block...), roots.Msg...), roots.Gov...)...)
+	nInc := 0
+	seen := map[string]bool{}
+	var admins, incs []ctrWrite
+	for _, w := range c.counterWrites(prefix, reach) {
+		switch {
+		case w.Val != nil && c.readsPrefix(w.Fn, prefix):
+			nInc++
+			incs = append(incs, w)
+			r.Ok(rule, "increment:"+fname(w.Fn), c.pos(w.At), sprintf("%s is advanced by exactly one: the value stored is previous+1", prefix))
+		case consensus[w.Fn]:
+			r.Bad(rule, "writer:"+fname(w.Fn), c.pos(w.At), sprintf("%s is written outside its increment function in code reachable from block/message processing", prefix))
+		default:
+			if !seen[fname(w.Fn)] {
+				seen[fname(w.Fn)] = true
+				r.Ok(rule, "admin-writer:"+fname(w.Fn), c.pos(w.At), "administrative setter reachable only from genesis/upgrade code")
+			}
+			admins = append(admins, w)
+		}
+	}
+	// a restore of the counter comes before anything in the same function that takes the next value from it
+	// (an import that stamps restored objects first would hand out numbers below the restored counter)
+	for _, w := range admins {
+		incFns := map[*ssa.Function]bool{}
+		for _, iw := range incs {
+			incFns[ana.Outermost(iw.Fn)] = true
+		}
+		ana.Calls(w.Fn, func(site ssa.CallInstruction, d ana.CalleeDesc) {
+			in := site.(ssa.Instruction)
+			if in == w.At {
+				return
+			}
+			uses := false
+			for _, callee := range c.P.Callees(site) {
+				for g := range c.P.ReachCS(callee) {
+					if incFns[ana.Outermost(g)] {
+						uses = true
+					}
+				}
+			}
+			if !uses {
+				return
+			}
+			before := w.At.Block() == in.Block() && ana.InstrIndex(w.At) < ana.InstrIndex(in) || (w.At.Block() != in.Block() && w.At.Block().Dominates(in.Block()))
+			r.Check(before, rule, "restore-first:"+fname(w.Fn), c.pos(in), sprintf("%s is restored before the import takes numbers from it", prefix),
+				sprintf("%s takes the next value of %s at %s before the counter has been restored (at %s): restored objects are numbered from the old counter value, and the numbers handed out later repeat or skip", fname(w.Fn), prefix, c.pos(in), c.pos(w.At)))
 		})
-		nInc++
-		r.Check(ok, rule, "increment:"+fname(f), p.Pos(f.Pos()), sprintf("%s is advanced by exactly one (through its setter) and the new value is returned", prefix), "increment does not store previous+1")
 	}
 	if nInc != 1 {
 		r.Bad(rule, "increment-count:"+prefix, "-", sprintf("%d increment functions for %s, expected exactly one", nInc, prefix))
